@@ -32,6 +32,9 @@ using js::J;
 struct Step {
   int op = -1;
   vector<int> choices;
+  int64_t crash_at = -1;   // >= 0: the process is killed at this mutating operation
+  int tear = -1;
+  unsigned orphans = 0;    // bit mask of orphaned commands that still complete
 };
 
 struct World {
@@ -44,6 +47,8 @@ struct World {
   // statements with depfile/deps that the base build did not run although a restat statement
   // upstream of them ran without rewriting its output (shape of the known finding F2)
   set<string> base_restat_pruned;
+  // C07: some invocation in the history was interrupted or killed.
+  bool abnormal = false;
 };
 
 static const char* kLog = ".ninja_log";
@@ -117,7 +122,7 @@ struct Violation {
 struct Stats {
   uint64_t states = 0, transitions = 0, invocations = 0, schedules = 0, commands = 0;
   uint64_t multi_outcome_points = 0, max_schedules_per_point = 0, tainted = 0;
-  uint64_t dev_capped = 0, subset_capped = 0;
+  uint64_t dev_capped = 0, subset_capped = 0, crash_runs = 0, crash_worlds = 0;
   int max_running = 0;
   bool complete = true;
   set<string> outcome_kinds;
@@ -836,6 +841,68 @@ struct Explorer {
     }
   }
 
+  /// C07 (interrupt part): exit status 130, lock file removed, outputs of killed commands removed
+  /// when they had been modified (always for depfile statements), depfiles removed.
+  void CheckInterrupt(const RunResult& r, const vfs::Disk& before, const vfs::Disk& after, vector<Violation>* out) {
+    bool interrupted = false;
+    for (auto& e : r.events) if (e.kind == Event::kInterrupt) interrupted = true;
+    bool child_sig = false;
+    for (auto& c : r.cmds) if (c.finished && c.status == 130) child_sig = true;
+    if (!interrupted && !child_sig) return;
+    if (r.crashed || r.hang || r.horizon) return;
+    if (r.exit_code != 130) {
+      Violation x; x.prop = "C07"; x.clause = "interrupt-exit-status";
+      x.detail = "interrupted build exited " + to_string(r.exit_code) + " instead of 130";
+      x.facts.set("exit", r.exit_code);
+      x.facts.set("child_died_of_signal", child_sig);
+      out->push_back(x);
+    }
+    if (after.Get(".ninja_lock")) {
+      Violation x; x.prop = "C07"; x.clause = "lock-file-left";
+      x.detail = ".ninja_lock still exists after an interrupted build";
+      out->push_back(x);
+    }
+    for (auto& c : r.cmds) {
+      bool victim = c.killed || (c.finished && c.status == 130);
+      if (!victim || !c.spec.valid) continue;
+      const Variant* v = VariantByHash(sc, c.manifest_hash);
+      bool has_depfile = false;
+      if (v) { auto p = v->producer.find(c.spec.id()); if (p != v->producer.end()) has_depfile = !v->stmts[p->second].depfile.empty(); }
+      for (auto& o : c.spec.outs) {
+        const vfs::File* f = after.Get(o);
+        if (!f) continue;
+        if (c.wrote || has_depfile) {
+          Violation x; x.prop = "C07"; x.clause = "interrupted-output-kept";
+          x.detail = "'" + o + "' of an interrupted command " +
+                     (c.wrote ? "had been modified by it" : "(depfile statement)") + " but was not removed";
+          x.facts.set("stmt", c.spec.id());
+          x.facts.set("modified", c.wrote);
+          x.facts.set("has_depfile", has_depfile);
+          x.facts.set("command_itself_died_of_signal", c.finished && c.status == 130);
+          out->push_back(x);
+        }
+      }
+      if (has_depfile && !c.spec.depfile.empty() && after.Get(c.spec.depfile)) {
+        Violation x; x.prop = "C07"; x.clause = "interrupted-depfile-kept";
+        x.detail = "depfile '" + c.spec.depfile + "' of an interrupted command was not removed";
+        x.facts.set("stmt", c.spec.id());
+        x.facts.set("command_itself_died_of_signal", c.finished && c.status == 130);
+        out->push_back(x);
+      }
+    }
+  }
+
+  /// C07: an invocation after an interrupted/killed one must start normally: a non-zero exit needs
+  /// a failed command, an interrupt or a legitimately reported user error.
+  void CheckUnexpectedError(const Op& op, const RunResult& r, vector<Violation>* out) {
+    if (r.hang || r.crashed || r.horizon || r.exit_code == 0) return;
+    for (auto& e : r.events) if (e.kind == Event::kInterrupt) return;
+    for (auto& c : r.cmds) if (c.finished && c.status != 0) return;
+    Violation x; x.prop = "C07"; x.clause = "next-invocation-fails";
+    x.detail = "ninja exited " + to_string(r.exit_code) + " without any failed command: " + r.out.substr(0, 300);
+    out->push_back(x);
+  }
+
   /// C06: limits and liveness on one execution.
   void CheckLimits(const Op& op, const RunResult& r, vector<Violation>* out) {
     if (r.hang) {
@@ -987,6 +1054,10 @@ struct Explorer {
     bool expand = true;
     bool is_base = false;   // successful, content-correct full default build: a base for C03
     set<string> restat_pruned;
+    bool abnormal = false;
+    int64_t crash_at = -1;
+    int tear = -1;
+    unsigned orphans = 0;
   };
 
   void RunSchedules(const World& w, int opi, vector<Succ>* succ) {
@@ -1035,9 +1106,24 @@ struct Explorer {
         if (Want("C05")) CheckFailures(op, r, w.disk, d, baseline.get(), &vs);
         if (Want("C05") && !op.cfg.faults.empty()) CheckRetry(op, r, w.disk, d, &vs);
         if (Want("C06")) CheckLimits(op, r, &vs);
+        if (Want("C07")) {
+          CheckInterrupt(r, w.disk, d, &vs);
+          if (w.abnormal) CheckUnexpectedError(op, r, &vs);
+        }
         if (Want("C03") && w.base && w.nchanges <= 2 && op.cfg.faults.empty() &&
             !op.cfg.allow_interrupt && !edited_during && !sc.tags.count("manifest-regen"))
           CheckMinimal(op, r, *w.base, w.disk, w.base_restat_pruned, &vs);
+      }
+      if (w.abnormal && Want("C07")) {
+        // anything going wrong in the build that follows an interrupted/killed one counts for C07
+        size_t nv = vs.size();
+        for (size_t i = 0; i < nv; ++i)
+          if (vs[i].prop == "C01" || vs[i].prop == "C02") {
+            Violation x = vs[i];
+            x.clause = "after-abnormal-exit:" + x.prop + "/" + x.clause;
+            x.prop = "C07";
+            vs.push_back(x);
+          }
       }
       for (auto& v : vs)
         if (Want(v.prop.c_str()) || (v.prop == "C01" && !props.empty())) Report(v, hist);
@@ -1060,6 +1146,9 @@ struct Explorer {
         s.expand = !op.no_expand && !r.hang && !r.horizon;
         s.is_base = success && !content_bad && !edited_during && op.targets.empty() && op.cfg.faults.empty() &&
                     !op.tool && !op.dry_run;
+        s.abnormal = w.abnormal;
+        for (auto& e : r.events) if (e.kind == Event::kInterrupt) s.abnormal = true;
+        for (auto& c : r.cmds) if (c.finished && c.status == 130) s.abnormal = true;
         if (s.is_base)
           if (const Variant* bv = VariantOf(sc, d))
             for (size_t si = 0; si < bv->stmts.size(); ++si) {
@@ -1086,6 +1175,45 @@ struct Explorer {
         s.set("started", StartedList(r));
         s.set("exit", r.exit_code);
         samples.push_back(s);
+      }
+      if (op.crash && Want("C07") && !r.hang && !r.horizon) {
+        // every crash point of this schedule; for write operations with and without a torn part
+        for (uint64_t k = 0; k < r.ops; ++k) {
+          for (int tear : {-1, 7}) {
+            vfs::Disk dc = w.disk;
+            RunConfig cc = op.cfg;
+            cc.crash_at = (int64_t)k;
+            cc.crash_tear = tear;
+            RunResult rc = RunNinja(&dc, cc, r.choices);
+            st.invocations++;
+            st.crash_runs++;
+            if (!rc.crashed) continue;
+            vector<int> orphans;
+            for (size_t c = 0; c < rc.cmds.size(); ++c)
+              if (!rc.cmds[c].finished && !rc.cmds[c].killed) orphans.push_back((int)c);
+            for (unsigned mask = 0; mask < (1u << orphans.size()); ++mask) {
+              vfs::Disk dm = dc;
+              RunResult rm = rc;
+              for (size_t oi = 0; oi < orphans.size(); ++oi)
+                if (mask & (1u << oi)) CompleteOrphan(&dm, &rm, cc, orphans[oi]);
+              string ckey = WorldKey(dm);
+              st.crash_worlds++;
+              if (!succ_keys.insert(ckey).second) continue;
+              Succ s;
+              s.disk = dm;
+              s.choices = r.choices;
+              s.abnormal = true;
+              s.expand = true;
+              s.crash_at = (int64_t)k;
+              s.tear = tear;
+              s.orphans = mask;
+              succ->push_back(s);
+            }
+            if (tear == -1 && k + 1 < r.ops) {
+              // the torn variant differs only when op k is a stream write; cheap to try always
+            }
+          }
+        }
       }
       // branch
       int devs = 0;
@@ -1159,8 +1287,9 @@ struct Explorer {
             World nw;
             nw.disk = s.disk;
             nw.hist = w.hist;
-            nw.hist.push_back({(int)opi, s.choices});
+            nw.hist.push_back({(int)opi, s.choices, s.crash_at, s.tear, s.orphans});
             if (s.is_base) { nw.base = make_shared<vfs::Disk>(nw.disk); nw.base_restat_pruned = s.restat_pruned; }
+            nw.abnormal = s.abnormal;
             frontier.push_back({nw, dpt + 1});
           }
         } else {
@@ -1189,12 +1318,27 @@ struct Explorer {
     }
     for (auto& kv : sc.variants[0].files) w.disk.Write(kv.first, kv.second);
     int bad = 0;
+    bool abnormal = false;
     for (size_t i = 0; i < hist.size(); ++i) {
       const Op& op = sc.ops[hist[i].op];
       dprintf(100, "--- step %zu: %s\n", i, op.label.c_str());
       if (op.kind != Op::kNinja) { ApplySimple(op, &w.disk); continue; }
       vfs::Disk before = w.disk;
-      RunResult r = RunNinja(&w.disk, op.cfg, hist[i].choices);
+      RunConfig rcfg = op.cfg;
+      rcfg.crash_at = hist[i].crash_at;
+      rcfg.crash_tear = hist[i].tear;
+      RunResult r = RunNinja(&w.disk, rcfg, hist[i].choices);
+      if (hist[i].crash_at >= 0) {
+        vector<int> orphans;
+        for (size_t c = 0; c < r.cmds.size(); ++c)
+          if (!r.cmds[c].finished && !r.cmds[c].killed) orphans.push_back((int)c);
+        for (size_t oi = 0; oi < orphans.size(); ++oi)
+          if (hist[i].orphans & (1u << oi)) CompleteOrphan(&w.disk, &r, rcfg, orphans[oi]);
+        dprintf(100, "%s    ninja killed at mutating operation %lld (tear=%d), %zu orphan(s), completed mask=%u\n",
+                r.out.c_str(), (long long)hist[i].crash_at, hist[i].tear, orphans.size(), hist[i].orphans);
+        abnormal = true;
+        continue;
+      }
       if (r.exit_code == -777 || r.choices != hist[i].choices) {
         // a shorter recorded choice list is a prefix: fine; anything else is a divergence
         bool prefix_ok = r.choices.size() >= hist[i].choices.size() &&
@@ -1203,6 +1347,9 @@ struct Explorer {
       }
       dprintf(100, "%s", r.out.c_str());
       dprintf(100, "    exit=%d hang=%d started=%s\n", r.exit_code, r.hang, js::Dump(StartedList(r)).c_str());
+      bool abnormal_after = abnormal;  // monitors of this step see the state before it
+      for (auto& e : r.events) if (e.kind == Event::kInterrupt) abnormal_after = true;
+      for (auto& c : r.cmds) if (c.finished && c.status == 130) abnormal_after = true;
       if (i + 1 == hist.size()) {
         vector<Violation> vs;
         bool success = r.exit_code == 0 && !r.hang && !r.crashed;
@@ -1224,6 +1371,18 @@ struct Explorer {
           CheckFailures(op, r, before, w.disk, baseline.get(), &vs);
           if (!op.cfg.faults.empty()) CheckRetry(op, r, before, w.disk, &vs);
           CheckLimits(op, r, &vs);
+          CheckInterrupt(r, before, w.disk, &vs);
+          if (abnormal) {
+            CheckUnexpectedError(op, r, &vs);
+            size_t nv = vs.size();
+            for (size_t q = 0; q < nv; ++q)
+              if (vs[q].prop == "C01" || vs[q].prop == "C02") {
+                Violation x = vs[q];
+                x.clause = "after-abnormal-exit:" + x.prop + "/" + x.clause;
+                x.prop = "C07";
+                vs.push_back(x);
+              }
+          }
         }
         for (auto& v : vs) {
           if (!Want(v.prop.c_str())) continue;
@@ -1231,6 +1390,7 @@ struct Explorer {
           bad++;
         }
       }
+      abnormal = abnormal_after;
     }
     for (auto& kv : w.disk.files)
       dprintf(100, "    %-14s %s t=%lld %s\n", kv.first.c_str(), kv.second.dir ? "d" : "f", (long long)kv.second.mtime,
@@ -1250,6 +1410,11 @@ static J HistToJson(const Scenario& sc, const vector<Step>& h) {
     J c = J::Arr();
     for (int x : s.choices) c.push(x);
     o.set("choices", c);
+    if (s.crash_at >= 0) {
+      o.set("crash_at", (long long)s.crash_at);
+      o.set("tear", s.tear);
+      o.set("orphans", (long long)s.orphans);
+    }
     a.push(o);
   }
   return a;
@@ -1296,6 +1461,9 @@ int main(int argc, char** argv) {
       Step st;
       st.op = (int)s["op"].num();
       for (auto& c : s["choices"].a) st.choices.push_back((int)c.num());
+      st.crash_at = s["crash_at"].is_null() ? -1 : s["crash_at"].num();
+      st.tear = (int)s["tear"].num(-1);
+      st.orphans = (unsigned)s["orphans"].num(0);
       hist.push_back(st);
     }
     int rc1 = ex.Replay(hist);
@@ -1334,6 +1502,8 @@ int main(int argc, char** argv) {
     total.max_schedules_per_point = max(total.max_schedules_per_point, ex.st.max_schedules_per_point);
     total.tainted += ex.st.tainted;
     total.dev_capped += ex.st.dev_capped;
+    total.crash_runs += ex.st.crash_runs;
+    total.crash_worlds += ex.st.crash_worlds;
     total.max_running = max(total.max_running, ex.st.max_running);
     for (auto& k : ex.st.outcome_kinds) total.outcome_kinds.insert(k);
     for (auto& v : ex.violations) {
@@ -1367,6 +1537,8 @@ int main(int argc, char** argv) {
   out.set("max_schedules_per_point", total.max_schedules_per_point);
   out.set("tainted_worlds", total.tainted);
   out.set("dev_capped", total.dev_capped);
+  out.set("crash_runs", total.crash_runs);
+  out.set("crash_worlds", total.crash_worlds);
   out.set("max_running", total.max_running);
   J ok = J::Arr();
   for (auto& k : total.outcome_kinds) ok.push(k);
